@@ -1,6 +1,7 @@
 """C15 - dump output honours the formatting options (plumbing / normalisation / funnel clauses)."""
 import sys
 
+from sa import rules_r6 as R6
 from sa import report, rules_opts as RO, rules_emit as RE
 from sa import rules_extra as RX
 
@@ -17,19 +18,22 @@ def run(ctx, repo):
         'accepted by the library\'s own scanner (R-ASCII-RAW, R-TAGCHAR-INCLUSION). NOT decided: indentation of each emitted '
         'line, acceptance of canonical output by an independent parser (value-level).')
     ctx.trust('CPython ast; the constant evaluator of sa.charworld for guards and character predicates')
-    RO.r_option_plumbing(ctx, repo)
-    RO.r_option_normalised(ctx, repo)
-    RO.r_break_funnel(ctx, repo)
-    RO.r_encode_before_write(ctx, repo)
-    RO.r_stream_selection(ctx, repo)
-    RO.r_directives_from_options(ctx, repo)
-    RE.r_directive_after_open_ended(ctx, repo)
-    RO.r_ascii_unless_unicode(ctx, repo)
-    RE.r_tagchar_inclusion(ctx, repo)
-    RX.r_analyze_special(ctx, repo)
-    RX.r_emitter_doc_reset(ctx, repo)
-    RE.r_tag_suffix_nonempty(ctx, repo)
-    RX.r_fold_leading_space(ctx, repo)
+    ctx.call(RO.r_option_plumbing, repo)
+    ctx.call(RO.r_option_normalised, repo)
+    ctx.call(RO.r_break_funnel, repo)
+    ctx.call(RO.r_encode_before_write, repo)
+    ctx.call(RO.r_stream_selection, repo)
+    ctx.call(RO.r_directives_from_options, repo)
+    ctx.call(RE.r_directive_after_open_ended, repo)
+    ctx.call(RO.r_ascii_unless_unicode, repo)
+    ctx.call(RE.r_tagchar_inclusion, repo)
+    ctx.call(RX.r_analyze_special, repo)
+    ctx.call(RX.r_emitter_doc_reset, repo)
+    ctx.call(RE.r_tag_suffix_nonempty, repo)
+    ctx.call(RX.r_fold_leading_space, repo)
+    ctx.call(R6.r_bom_for_utf16, repo)
+    ctx.call(R6.r_tag_directive_every_handle, repo)
+    ctx.call(RE.r_escape_inverse, repo)
 
 
 if __name__ == '__main__':
